@@ -30,6 +30,9 @@ pub(crate) mod profiler;
 
 pub(crate) mod observability;
 
+#[cfg(rzmq_verif)]
+pub mod verif;
+
 #[cfg(feature = "io-uring")]
 pub mod io_uring_backend;
 #[cfg(feature = "io-uring")]
